@@ -274,6 +274,10 @@ func runCase(cs *fw.Case, def entryDef, T, buf int, part string, reps int) {
 		}
 		ok, detail, ratio := compare(w, ref, par.Out)
 		cs.Cover("outputs-compared:" + kindOf(w))
+		if !w.Exact && ratio > 32 {
+			// where the allowance is actually used (evidence for the choice of K)
+			cs.C.Data(map[string]any{"kind": "reassoc-outlier", "entry": w.Entry, "variant": w.Variant, "ratio": ratio, "K": w.K, "terms": w.Terms, "cfg": cfg})
+		}
 		if !w.Exact {
 			cs.C.CoverMax("max:observed |diff|/(terms*eps*scale):"+kindOf(w), int64(math.Ceil(ratio)))
 		}
@@ -393,12 +397,18 @@ func compare(w *workload, a, b []float64) (bool, string, float64) {
 	return true, "", worst
 }
 
-// compareNumeric: the outputs are [marker, variables..., value, derivatives...]
-// per objective evaluation and [marker, parameters...] at the end.  An
-// evaluation is compared when its variables are bit-identical in both runs
-// (always true for the first one); the final parameters are compared (EM
-// allowance: the optimiser amplifies) when both runs made the same number of
-// evaluations.
+// compareNumeric: the outputs are [marker, #variables, #derivatives, order,
+// variables..., value, gradient..., hessian...] per objective evaluation and
+// [marker, parameters...] at the end.  Judged are the evaluations of the full
+// objective (one derivative per parameter) at variables that are bit-identical
+// in both runs, as long as every earlier evaluation was at identical variables
+// too (the first evaluation always is: it carries every contribution once).
+// Evaluations of the line search (derivative along a search direction whose
+// length is unbounded when the modified Hessian is nearly singular: terms of
+// size |direction| cancel) and everything after the first divergence of the
+// optimiser's trajectory are not judged: Newton with a nearly singular Hessian
+// amplifies one ulp to any size, no re-association bound exists there.  The
+// final parameters are compared when the whole trajectory was identical.
 func compareNumeric(w *workload, a, b []float64) (bool, string, float64) {
 	split := func(x []float64) [][]float64 {
 		var segs [][]float64
@@ -416,41 +426,60 @@ func compareNumeric(w *workload, a, b []float64) (bool, string, float64) {
 		return false, "no objective evaluation recorded", 0
 	}
 	worst := 0.0
+	nPar := len(sa[len(sa)-1]) // number of parameters of the density
+	identical := len(sa) == len(sb)
 	for e := 0; e < len(sa)-1 && e < len(sb)-1; e++ {
 		x, y := sa[e], sb[e]
-		if len(x) == 0 || len(y) == 0 {
+		if len(x) < 4 || len(y) < 4 {
+			identical = false
 			break
 		}
-		d := 1 + int(x[0]) // number of variables of this evaluation (line searches have one)
-		if len(x) != len(y) {
+		nv, nd := int(x[0]), int(x[1])
+		d := 3 + nv // start of (value, gradient, hessian)
+		if len(x) != len(y) || d > len(x) {
 			if e == 0 {
 				return false, fmt.Sprintf("evaluation %d: %d numbers instead of %d", e, len(y), len(x)), 0
 			}
+			identical = false
 			break
 		}
 		aligned := true
-		for i := 0; i < d && i < len(x); i++ {
+		for i := 0; i < d; i++ {
 			if !sameBits(x[i], y[i]) {
 				aligned = false
 			}
 		}
 		if !aligned {
+			identical = false
 			break
 		}
+		if nd != nPar {
+			continue // line search
+		}
+		// the entries of one evaluation are sums over the same observations whose
+		// terms grow like 1/sigma^2, 1/sigma^4 in the derivatives and cancel in
+		// the gradient: the allowance is scaled with the largest entry of the
+		// evaluation (a sum dominated by terms of one sign)
+		segScale := 1.0
 		for i := d; i < len(x); i++ {
-			ok, ratio := within(x[i], y[i], w.K, w.Terms)
+			if v := math.Abs(x[i]); v > segScale && !math.IsInf(v, 0) {
+				segScale = v
+			}
+		}
+		for i := d; i < len(x); i++ {
+			ok, ratio := within(x[i]/segScale, y[i]/segScale, w.K, w.Terms)
 			if !ok {
-				return false, fmt.Sprintf("objective evaluation %d at identical variables %v: component %d of (value, gradient, hessian) is %v instead of %v (%.3g x terms*eps*scale)", e, x[1:d], i-d, y[i], x[i], ratio), ratio
+				return false, fmt.Sprintf("objective evaluation %d at identical variables %v: component %d of (value, gradient, hessian) is %v instead of %v (%.3g x terms*eps*scale)", e, x[3:d], i-d, y[i], x[i], ratio), ratio
 			}
 			worst = math.Max(worst, ratio)
 		}
 	}
-	if len(sa) == len(sb) {
+	if identical {
 		x, y := sa[len(sa)-1], sb[len(sb)-1]
 		for i := range x {
 			if i < len(y) {
 				if ok, ratio := within(x[i], y[i], kEM, w.Terms); !ok {
-					return false, fmt.Sprintf("final parameter %d: %v instead of %v (%.3g x terms*eps*scale)", i, y[i], x[i], ratio), ratio
+					return false, fmt.Sprintf("final parameter %d after an identical trajectory: %v instead of %v (%.3g x terms*eps*scale)", i, y[i], x[i], ratio), ratio
 				}
 			}
 		}
